@@ -119,6 +119,91 @@ private theorem exWriteQuery_err (env : Env) (isInsert : Bool) (tgt : List Strin
     cases h
     exact (exQuery_ok env _ q).out _ he'
 
+private theorem addLineage_owned_ok (g : LGraph) (src : Column) (raw : String) (tp : DS × String) (e : Err)
+    (h : addColumnLineage g src (Column.mk1 raw (some tp)) = .error e) : False := by
+  have := (addColumnLineage_error_iff g src (Column.mk1 raw (some tp)) e).mp h
+  simp [own_parent] at this
+
+private theorem exUpdate_err (env : Env) (ctx : Ctx) (tgt : List String) (sets : List SetClause) (frm : List FromExpr)
+    (e : Err) (h : exUpdate env ctx tgt sets frm = .error e) : e = .lineage ∨ e = .internal "None node" := by
+  unfold exUpdate at h
+  simp only at h
+  split at h
+  · cases h
+  · split at h
+    · rename_i e1 he1
+      cases h
+      exfalso
+      refine foldlM_error _ (fun _ => False) ?_ _ _ _ he1
+      intro b c e2 hc
+      refine foldlM_error _ (fun _ => False) ?_ _ _ _ hc
+      intro b2 s2 e3 hs
+      exact addLineage_owned_ok _ _ _ _ _ hs
+    · exact (sqFrom_ok env _ _ _).out _ h
+
+private theorem foldlM_error_mem {α β : Type} (f : β → α → Except Err β) (P : Err → Prop) :
+    ∀ (l : List α), (∀ b a e, a ∈ l → f b a = .error e → P e) → ∀ (b : β) (e : Err), l.foldlM f b = .error e → P e
+  | [], _, b, e, h => by simp [List.foldlM_nil, pure, Except.pure] at h
+  | a :: l, hf, b, e, h => by
+    rw [List.foldlM_cons] at h
+    cases hfa : f b a with
+    | error x =>
+      rw [hfa] at h
+      simp only [bind, Except.bind] at h
+      cases h; exact hf b a _ (by simp) hfa
+    | ok b2 =>
+      rw [hfa] at h
+      simp only [bind, Except.bind] at h
+      exact foldlM_error_mem f P l (fun b a e ha => hf b a e (by simp [ha])) b2 e h
+
+private theorem addLineage_parent_ok (g : LGraph) (src tgt : Column) (tp : DS × String) (e : Err)
+    (hp : tgt.parent? = some tp) (h : addColumnLineage g src tgt = .error e) : False := by
+  have := (addColumnLineage_error_iff g src tgt e).mp h
+  simp [hp] at this
+
+private theorem exMerge_err (env : Env) (tgt : List String) (src : MergeSource) (ups : List (List SetClause))
+    (ins : List MergeInsert) (e : Err) (h : exMerge env tgt src ups ins = .error e) :
+    e = .lineage ∨ e = .internal "None node" := by
+  unfold exMerge at h
+  simp only at h
+  split at h
+  · rename_i e1 he1
+    cases h
+    split at he1
+    · cases he1
+    · split at he1
+      · rename_i e2 hq
+        cases he1
+        exact (exQuery_ok env _ _).out _ hq
+      · cases he1
+  · split at h
+    · rename_i e1 he1
+      cases h
+      exfalso
+      refine foldlM_error_mem _ (fun _ => False) _ ?_ _ _ he1
+      intro b p e2 hmem hp
+      simp only [List.mem_filterMap] at hmem
+      obtain ⟨sc, _, hsc⟩ := hmem
+      split at hsc
+      · cases hsc
+        exact addLineage_parent_ok _ _ _ _ _ (own_parent _ _) hp
+      · cases hsc
+    · exfalso
+      refine foldlM_error _ (fun _ => False) ?_ _ _ _ h
+      intro b i e2 hi
+      refine foldlM_error _ (fun _ => False) ?_ _ _ _ hi
+      intro b2 vi e3 hv
+      split at hv
+      · split at hv
+        · rename_i tc htc
+          have hmem : tc ∈ List.map (fun c => Column.mk1 (Ident.escapeS (c.getLast?.getD ""))
+              (some ((mkTable env tgt none).d, (mkTable env tgt none).printed))) i.cols := List.mem_of_getElem? htc
+          simp only [List.mem_map] at hmem
+          obtain ⟨c, _, rfl⟩ := hmem
+          exact addLineage_parent_ok _ _ _ _ _ (own_parent _ _) hv
+        · cases hv
+      · cases hv
+
 /-- **every error of the statement analysis is accounted for**: `unsupported` (no extractor claims the statement type),
     `lineage` (more than one write target at `end_of_query_cleanup`), the `"None node"` of `add_column_lineage`, or the
     model's own marker for the three statement kinds it does not cover.  In particular the walk itself — subquery
@@ -126,8 +211,7 @@ private theorem exWriteQuery_err (env : Env) (isInsert : Bool) (tgt : List Strin
     induction over the whole mutual walk (`Proofs/WalkErrors.lean`) every error is handed up unchanged from
     `end_of_query_cleanup`. -/
 theorem walk_total_partial (env : Env) (silent : Bool) (s : Stmt) (e : Err) (h : analyze env silent s = .error e) :
-    e = .unsupported ∨ e = .lineage ∨ e = .internal "None node" ∨
-    (∃ k, e = .internal ("unmodelled:" ++ k)) := by
+    e = .unsupported ∨ e = .lineage ∨ e = .internal "None node" := by
   unfold analyze at h
   split at h
   · split at h
@@ -141,9 +225,8 @@ theorem walk_total_partial (env : Env) (silent : Bool) (s : Stmt) (e : Err) (h :
     all_goals first
       | (cases h; done)
       | (cases h; exact Or.inl rfl)
-      | (cases h; exact Or.inr (Or.inr (Or.inr ⟨"update", rfl⟩)))
-      | (cases h; exact Or.inr (Or.inr (Or.inr ⟨"merge", rfl⟩)))
-      | (cases h; exact Or.inr (Or.inr (Or.inr ⟨"copy", rfl⟩)))
+      | exact Or.inr (by rcases exUpdate_err _ _ _ _ _ _ h with h | h <;> simp [h])
+      | exact Or.inr (by rcases exMerge_err _ _ _ _ _ _ h with h | h <;> simp [h])
 
 /-- statements that are not queries and carry no query are total outright: no internal error of any kind -/
 def nonQuery : Stmt → Bool
